@@ -7,7 +7,10 @@ in the Lean model (driver op `pcase`).
    notes which (host, port) the proxy's client asks for and the bytes it writes, and plays a canned
    response through the real client protocol;
  * family `live` — real TLS on loopback: a scripted upstream and decoy servers log every connection
-   and request line.
+   and request line;
+ * family `conc` — several requests in flight at once through one router;
+ * family `seq`  — sequences of requests through one long-lived deployment whose upstream also answers with redirects
+   (30/31 to other servers, to other paths of itself), the same URLs being asked again later.
 """
 from __future__ import annotations
 
@@ -37,6 +40,8 @@ ASSUMPTIONS = [
     "REGEX routes are not modelled (get_location_router registers PREFIX routes only)",
     "family map replaces loop.create_connection (recorder + canned response through the real GeminiClientProtocol); family live uses real TLS sockets on loopback with decoy servers",
     "the direct oracle computes host/port/path/query with urllib.parse.urlsplit, independently of nauyaca.utils.url",
+    "family seq runs a sequence of requests through one fresh deployment per case (the recorder answers the connection of step k with the status/meta the case names for step k, "
+    "2x bodies echo the request line; connections to any other host:port are answered by a decoy page): the model treats every request independently (driver op pcasen), which is the claim being checked",
     "family conc runs several requests concurrently through one handler (asyncio.gather; the recorder answers each connection after 1-30 ms with an echo of the request line): the model treats every request independently (driver op pcasen), which is exactly the claim being checked; identical URLs asked by m clients may be fetched between 1 and m times",
 ]
 LEVEL_TEXT = "proof"
@@ -141,13 +146,14 @@ def spec_hostport(url: str):
 
 
 class _Base(Family):
-    def _router(self, locs):
+    def _router(self, locs, fresh=False):
+        """router (+ log of the routes it chose) for a configuration; `fresh`: a new deployment, nothing remembered from earlier cases"""
         from nauyaca.protocol.response import GeminiResponse
         from nauyaca.server.config import ServerConfig
         from nauyaca.server.location import LocationConfig
 
         key = json.dumps(locs, sort_keys=True)
-        hit = self._routers.get(key)
+        hit = None if fresh else self._routers.get(key)
         if hit is not None:
             return hit
         lcs = []
@@ -166,6 +172,8 @@ class _Base(Family):
                     return h(request)
                 return call
             r.handler = wrap(r.handler)
+        if fresh:
+            return router, chosen
         if len(self._routers) > 400:
             self._routers.clear()
         self._routers[key] = (router, chosen)
@@ -630,7 +638,160 @@ class Concurrent(_Base):
         return f"n={n}:paths={min(len(paths), 3)}:dup={'y' if dup else 'n'}:overlap={'y' if overlap else 'n'}:fwd={min(fwd, 4)}"
 
 
-FAMILIES = [Map(), Live(), Concurrent()]
+class Sequence(_Base):
+    """A SEQUENCE of requests, one after the other, through one long-lived deployment (one router, hence one ProxyHandler
+    and one upstream client per location, as in a running server).  The upstream answers what the case says for each
+    step - pages, inputs, errors and redirects (30/31) to other servers, to other paths of the upstream, relative ones -
+    and the same URLs come back later in the sequence.  Whatever was answered before, every request must again be
+    forwarded to the configured upstream host:port only, as exactly the mapped URL."""
+    name = "seq"
+    quick_n = 640
+    thorough_n = 16000
+
+    REDIRECTS = ["gemini://decoy.example:7070/moved", "gemini://decoy.example:7070$P", "gemini://decoy.example/", "gemini://up.example/elsewhere", "gemini://up.example:7070/base/new?z",
+                 "gemini://up.example$P/", "gemini://front.example/loop", "/relative", "other", "gemini://10.0.0.9:70/a/b/c", "titan://decoy.example:7070/up"]
+
+    def setup(self):
+        from ..sim import url_upstream as U
+
+        if getattr(self, "_ready", False):
+            return
+        self._init_common()
+        self._ups: set = set()
+        self._answer = (20, "text/plain")
+
+        def responder(rec):
+            line = rec.get("written", b"")
+            if (str(rec["host"]).lower(), rec["port"]) not in self._ups:
+                return 0.0, b"20 text/plain\r\nDECOY " + line      # some other server of the world
+            st, meta = self._answer
+            return 0.0, f"{st} {meta}\r\n".encode("utf-8") + (line if 20 <= st <= 29 else b"")
+
+        self.inter = U.Interposer(self.loop, responder=responder)
+        self._ready = True
+
+    def gen(self, rng: random.Random, n: int):
+        api = {"type": "proxy", "prefix": "/api", "upstream": "gemini://up.example", "strip": True}
+        base = {"type": "proxy", "prefix": "/", "upstream": "gemini://up.example:7070/base", "strip": False}
+        F = "gemini://front.example"
+        det = [
+            {"locs": [api], "steps": [[F + "/api/old?x", 31, "gemini://decoy.example:7070/new"], [F + "/api/old?x", 20, "text/plain"], [F + "/api/old", 20, "text/plain"]]},
+            {"locs": [api], "steps": [[F + "/api/old", 30, "gemini://decoy.example:7070/new"], [F + "/api/old", 30, "gemini://decoy.example:7070/new"], ["gemini://other.example:1966/api/old", 20, "text/gemini"]]},
+            {"locs": [base], "steps": [[F + "/doc", 31, "gemini://up.example:7070/base/doc/"], [F + "/doc", 31, "gemini://up.example:7070/base/doc/"], [F + "/doc/", 20, "text/gemini"], [F + "/doc", 20, "text/gemini"]]},
+            {"locs": [api, base], "steps": [[F + "/api/a?1", 31, "gemini://up.example/b?1"], [F + "/api/b?1", 31, "gemini://up.example/a?1"], [F + "/api/a?1", 51, "gone"], [F + "/b?1", 31, "gemini://decoy.example/"], [F + "/b?1", 20, "text/plain"]]},
+            {"locs": [base], "steps": [[F + "/in", 10, "Your name"], [F + "/in?Ann", 31, "gemini://decoy.example:7070/hello?Ann"], [F + "/in", 10, "Your name"], [F + "/in?Ann", 20, "text/plain"], [F + "/in?Bob", 20, "text/plain"]]},
+            {"locs": [api], "steps": [[F + "/api/x", 44, "5"], [F + "/api/x", 62, "certificate not valid"], [F + "/api/x", 31, "/relative"], [F + "/api/x", 20, "text/plain"]]},
+        ]
+        cnt = 0
+        for c in self.share(det):
+            cnt += 1
+            yield c
+        ups = ["gemini://up.example", "gemini://up.example:7070", "gemini://up.example/base", "gemini://10.0.0.9:70/a/b"]
+        for _ in range(max(0, n - cnt)):
+            locs = []
+            for _ in range(rng.choice([1, 1, 2, 3])):
+                if rng.random() < 0.85:
+                    locs.append({"type": "proxy", "prefix": rng.choice(["/", "/api", "/api/", "/a/b/", "/apikey"]), "upstream": rng.choice(ups), "strip": rng.random() < 0.6})
+                else:
+                    locs.append({"type": "static", "prefix": rng.choice(["/", "/s/", "/api/"])})
+            paths = [path_near(rng, locs) for _ in range(3)]
+            paths = [p for p in paths if p.isascii() and " " not in p and "\\" not in p and "?" not in p] or ["/api/x"]
+            urls = [p + rng.choice(["", "", "?", "?q", "?a=b&c=d", "?a?b", "?" + "z" * rng.randrange(1, 30)]) for p in paths for _ in range(2)][:rng.choice([1, 2, 3, 4])]
+            sticky: dict = {}
+            steps = []
+            for k in range(rng.choice([2, 3, 4, 6, 8])):
+                u = urls[0] if rng.random() < 0.55 else rng.choice(urls)
+                if u not in sticky or rng.random() < 0.15:
+                    r = rng.random()
+                    if r < 0.4:
+                        sticky[u] = [rng.choice([20, 20, 21]), rng.choice(["text/plain", "text/gemini; charset=utf-8", "application/octet-stream"])]
+                    elif r < 0.85:
+                        tgt = rng.choice(self.REDIRECTS).replace("$P", u.split("?")[0])
+                        sticky[u] = [rng.choice([31, 31, 31, 30, 30, 39]), tgt]
+                    else:
+                        sticky[u] = rng.choice([[10, "Enter"], [11, "Secret"], [44, "10"], [51, "Not found"], [52, "Gone"], [60, "certificate needed"]])
+                host = rng.choice(["front.example", "front.example", "front.example:1966", "decoy.example:7070", "up.example"])
+                steps.append(["gemini://" + host + u] + list(sticky[u]))
+            yield {"locs": locs, "steps": steps}
+
+    def impl(self, case):
+        from nauyaca.protocol.request import GeminiRequest
+
+        router, chosen = self._router(case["locs"], fresh=True)
+        self._ups = set()
+        for l in case["locs"]:
+            if l["type"] == "proxy":
+                try:
+                    h, p = spec_hostport(l["upstream"])
+                    self._ups.add(((h or "").lower(), p))
+                except ValueError:
+                    pass
+        out = []
+        for line, st, meta in case["steps"]:
+            try:
+                req = GeminiRequest.from_line(line)
+            except ValueError:
+                out.append({"req": "rejected"})
+                continue
+            chosen.clear()
+            self.inter.records.clear()
+            self._answer = (st, meta)
+            try:
+                res = router.route(req)
+                if asyncio.iscoroutine(res):
+                    res = self.loop.run_until_complete(res)
+                status, rmeta = res.status, res.meta
+            except Exception as e:  # noqa: BLE001
+                status, rmeta = "raised:" + type(e).__name__, ""
+            route = chosen[0] if chosen else "default"
+            o = {"req": "ok", "route": route, "status": status, "meta": rmeta}
+            if route != "default":
+                o["kind"] = case["locs"][route]["type"]
+            o["conns"] = [[r["host"], r["port"]] for r in self.inter.records]
+            o["sent"] = [r.get("written", b"").decode("utf-8", "surrogateescape") for r in self.inter.records]
+            out.append(o)
+        return {"steps": out}
+
+    def model(self, case):
+        locs = case["locs"]
+        ls = ";".join(f"s:{cps(l['prefix'])}" if l["type"] == "static" else f"x:{cps(l['prefix'])}:{1 if l['strip'] else 0}:{cps(l['upstream'])}" for l in locs)
+        return f"pcasen 1 1 1 1 {ls or '-'} " + ";".join(cps(s[0]) for s in case["steps"])
+
+    def expect(self, case, out):
+        return [_Base.expect(self, case, part) for part in out.split(" ; ")]
+
+    def same(self, expected, obs):
+        if len(expected) != len(obs["steps"]):
+            return False
+        return all(_Base.same(self, e, o) for e, o in zip(expected, obs["steps"]))
+
+    def oracle(self, case, obs):
+        hist = []
+        for k, ((line, st, meta), o) in enumerate(zip(case["steps"], obs["steps"])):
+            v = _Base.oracle(self, {"locs": case["locs"], "line": line}, o)
+            if v is not None:
+                before = "; ".join(hist) or "nothing"
+                return (v[0], f"step {k + 1} of a sequence through one deployment (before it: {before}): {v[1]}")
+            if o["req"] == "ok" and o.get("kind") == "proxy" and o.get("conns") and (o["status"], o["meta"]) != (st, meta):
+                return ("answer-of-another-request", f"step {k + 1}: request {line!r} was answered {o['status']} {o['meta']!r}, the upstream answered {st} {meta!r} to it (before it: {'; '.join(hist) or 'nothing'})")
+            hist.append(f"{line!r} -> upstream answered {st} {meta!r}")
+        return None
+
+    def key(self, case, obs):
+        steps = case["steps"]
+        seen31, repeat = set(), False
+        for line, st, meta in steps:
+            pq = line.split("//", 1)[1].partition("/")[2]
+            if pq in seen31:
+                repeat = True
+            if st == 31:
+                seen31.add(pq)
+        foreign = any(30 <= st <= 39 and "decoy" in meta for _, st, meta in steps)
+        fwd = sum(1 for o in obs["steps"] if o.get("conns"))
+        return f"steps={len(steps)}:redirects={min(3, sum(1 for _, st, _ in steps if 30 <= st <= 39))}:asked-again-after-31={'y' if repeat else 'n'}:foreign-target={'y' if foreign else 'n'}:fwd={min(fwd, 4)}"
+
+
+FAMILIES = [Map(), Live(), Concurrent(), Sequence()]
 
 
 def extract_extra():
